@@ -841,6 +841,12 @@ type ProposalMessage struct {
 
 // ValidateBasic performs basic validation.
 func (m *ProposalMessage) ValidateBasic() error {
+	// the peer state allocates a bit array of this size before the proposal's
+	// signature is looked at
+	if m.Proposal != nil && m.Proposal.POLBlockID.PartsHeader.Total > types.MaxBlockPartsCount {
+		return fmt.Errorf("proposal announces too many block parts: %d, max: %d",
+			m.Proposal.POLBlockID.PartsHeader.Total, types.MaxBlockPartsCount)
+	}
 	return nil
 }
 
